@@ -9460,8 +9460,9 @@ class SVG(Group):
                         if reify:
                             s.reify()
                         degenerate = s.is_degenerate()
-                    except ValueError as e:
-                        # A length that could not be resolved (font-relative units) fails when it is used:
+                    except (ValueError, TypeError) as e:
+                        # A length that could not be resolved (font-relative units) fails when it is used, and so
+                        # does path data that closed a curve before any point existed (its points are missing):
                         # the element's own attributes are in error, it is not rendered.
                         if on_error == "ignore":
                             continue
